@@ -78,6 +78,12 @@ def locateSliceStrict (L : List Label) (start stop : Option Label) (step : Optio
       else pure (some (p - 1))
   pure (istart, istop)
 
+/-- `values[-1] >= values[0]` (an empty axis counts as sorted, after fix F17) -/
+def headLeLast (L : List Label) : Bool :=
+  match L.head?, L.getLast? with
+  | some a, some z => Label.le a z
+  | _, _ => true
+
 /-- `locate_slice(values, start, stop, step)`; `kind` is the axis dtype kind -/
 def locateSlice (L : List Label) (kind : Kind) (start stop : Option Label) (step : Option Int) :
     Except Err (Option Int × Option Int) :=
@@ -85,9 +91,7 @@ def locateSlice (L : List Label) (kind : Kind) (start stop : Option Label) (step
   else
     let monotonic := isMonotonicEq L
     -- issorted = monotonic and values[-1] >= values[0]   (after fix F17: an empty axis is sorted)
-    let issorted := monotonic && (match L.head?, L.getLast? with
-      | some a, some z => Label.le a z
-      | _, _ => true)
+    let issorted := monotonic && headLeLast L
     if !monotonic then locateSliceStrict L start stop step
     else if (start.map Label.isNum).getD true == false then .error .type
     else if (stop.map Label.isNum).getD true == false then .error .type
@@ -100,9 +104,7 @@ def locateSlice (L : List Label) (kind : Kind) (start stop : Option Label) (step
         let p : Int := if inverted then n - (searchSide Label.lt sideR L.reverse v : Nat)
                        else (searchSide Label.lt sideL L v : Nat)
         if pos then p else p - 1
-      let istop : Option Int := match stop with
-        | none => none
-        | some v =>
+      let istop : Option Int := stop.bind fun v =>
           let p : Int := if inverted then n - (searchSide Label.lt sideL L.reverse v : Nat)
                          else (searchSide Label.lt sideR L v : Nat)
           if pos then some p else if p == 0 then none else some (p - 1)
